@@ -12,7 +12,9 @@ from ..rules import S, body_nodes, find_raise_guards, in_loop
 from ..srcmodel import src_of
 
 EXPLANATION = (
-    "lab.py is only parsed (pyvisa is never imported). C20.1: every SCPI f-string passed to _query is matched against a command table that "
+    "lab.py is only parsed (pyvisa is never imported) and first brought to canonical spelling (ocv/normalize.py: format()->f-string, "
+    "keyword->positional, index loops->element loops); private helpers are interpreted with the caller's intervals. C20.1: every SCPI "
+    "command string passed to _query (inline or built in a temporary; literal alternatives expanded) is matched against a command table that "
     "gives the documented limit of each interpolated slot; an element-wise interval analysis with guard refinement (clip, np.clip, "
     "arange, tile, `(x<a).any() or (x>b).any()`, `x<a or x>b`, `x in TABLE`, `.size > K`, np.split at multiples of K) must prove the "
     "slot's value inside the limit on every path: channel in [1,4] (through _check_channels), frequency [1.5e9,32e9], amplitude [0.3,2], "
